@@ -470,3 +470,99 @@ def quiet_ort():
         ort.set_default_logger_severity(4)
     except Exception:  # noqa: BLE001
         pass
+
+
+class OrtWorker:
+    """Runs ONNX models in a child process with a time limit (a Loop that never terminates -- e.g. produced by a
+    broken converter -- must not hang the check).  The child is restarted after a timeout."""
+
+    CODE = (
+        "import pickle,struct,sys\n"
+        "import onnxruntime as ort\n"
+        "ort.set_default_logger_severity(4)\n"
+        "inp=sys.stdin.buffer; out=sys.stdout.buffer\n"
+        "def rd(n):\n"
+        "    b=b''\n"
+        "    while len(b)<n:\n"
+        "        c=inp.read(n-len(b))\n"
+        "        if not c: sys.exit(0)\n"
+        "        b+=c\n"
+        "    return b\n"
+        "while True:\n"
+        "    n=struct.unpack('<Q',rd(8))[0]\n"
+        "    m,feeds=pickle.loads(rd(n))\n"
+        "    so=ort.SessionOptions(); so.graph_optimization_level=ort.GraphOptimizationLevel.ORT_DISABLE_ALL; so.log_severity_level=4\n"
+        "    try:\n"
+        "        s=ort.InferenceSession(m,so,providers=['CPUExecutionProvider']); r=('ok',s.run(None,feeds))\n"
+        "    except Exception as e:\n"
+        "        r=('error',str(e)[:600])\n"
+        "    p=pickle.dumps(r)\n"
+        "    out.write(struct.pack('<Q',len(p))+p); out.flush()\n")
+
+    def __init__(self, timeout=20):
+        self.timeout = timeout
+        self.proc = None
+        self.timeouts = 0
+
+    def _start(self):
+        import subprocess
+        import sys as _sys
+        self.proc = subprocess.Popen([_sys.executable, "-c", self.CODE], stdin=subprocess.PIPE, stdout=subprocess.PIPE,
+                                     stderr=subprocess.DEVNULL, bufsize=0)
+
+    def _read(self, n, deadline):
+        import os
+        import select
+        import time
+        buf = b""
+        fd = self.proc.stdout.fileno()
+        while len(buf) < n:
+            left = deadline - time.time()
+            if left <= 0:
+                return None
+            r, _, _ = select.select([fd], [], [], left)
+            if not r:
+                return None
+            chunk = os.read(fd, n - len(buf))
+            if not chunk:
+                return b""
+            buf += chunk
+        return buf
+
+    def run(self, model_proto, feeds):
+        import pickle
+        import struct
+        import time
+        if self.proc is None or self.proc.poll() is not None:
+            self._start()
+        payload = pickle.dumps((model_proto.SerializeToString(), feeds))
+        try:
+            self.proc.stdin.write(struct.pack("<Q", len(payload)) + payload)
+            self.proc.stdin.flush()
+        except Exception:  # noqa: BLE001
+            self.close()
+            return "error", "worker died"
+        deadline = time.time() + self.timeout
+        hdr = self._read(8, deadline)
+        if hdr is None:
+            self.timeouts += 1
+            self.close()
+            return "timeout", ""
+        if hdr == b"" or len(hdr) < 8:
+            self.close()
+            return "error", "worker crashed"
+        n = struct.unpack("<Q", hdr)[0]
+        body = self._read(n, deadline + 30)
+        if not body:
+            self.close()
+            return "error", "worker crashed"
+        return pickle.loads(body)
+
+    def close(self):
+        if self.proc is not None:
+            try:
+                self.proc.kill()
+                self.proc.wait(timeout=5)
+            except Exception:  # noqa: BLE001
+                pass
+            self.proc = None
